@@ -11,6 +11,11 @@ CHECKS = {
    "Every operation of the bit-mask layer is executed on the complete product of source offset 0..=130 x second offset 0..=130 x length 0..=200 (the property's own quantifier) x content patterns x surrounding-bit fillings x base misalignments and compared bit for bit with a Vec<bool> model, with canaries for bits outside the addressed range; builders are explored as histories (BFS, state = model contents). Exhaustive inside the stated bounds, nothing sampled.",
    "Trusted: the 10-line Vec<bool> reference semantics per operation; word closures are bitwise-local as the API documents; content alphabet is patterns + two fixed xorshift streams, not all 2^len contents (thorough adds all contents for len<=12).",
    "DESIGN.md section 4, C19"),
+ "C16": ("vk-buffer", "model_checking",
+   "explicit-state BFS over operation histories of the real buffer/array/FFI objects against a reference model, plus stateless enumeration of all thread schedules up to a preemption bound under a baton scheduler",
+   "States are histories replayed on fresh real objects (Buffer, MutableBuffer, BooleanBuffer, Int32Array, exported/imported C Data Interface structs, bytes::Bytes) sharing one region of each allocation kind (Vec, MutableBuffer, custom owner, bytes crate); 19 operation kinds x handle index, BFS with canonical sharing-graph dedup to depth 6 (quick) / 8 (thorough). After every transition: each live handle still shows its snapshot, the custom owner's release counter is 0 while a handle is alive and 1 afterwards, FFI release callbacks ran once per export, pool.used() lies within the model of live claims, and at teardown everything is released exactly once. Thread part: every 2-3 thread program of 1-2 operations is run under all schedules with <= 2 (3) preemptions.",
+   "Sequentially consistent, scheduling points at operation boundaries and at harness-held intermediate states only (no points inside library functions; no weak-memory reasoning). Pool model accepts an interval where arrow-buffer's own tests pin len-based re-sizing of MutableBuffer reservations.",
+   "DESIGN.md section 4, C16"),
 }
 NOT_YET = {}
 
